@@ -117,7 +117,9 @@ def extract(repo=None, target_set="lib", force=False, pkg_name="bitcask", target
         return files, hsh, {"cached": False, "wall_s": wall}
 
 
-def _prune_cache(keep, max_entries=24):
+def _prune_cache(keep, max_entries=None):
+    # many trees in flight at once (tools/seed_matrix.py, tools/selftest.py) need room for all of them
+    max_entries = max_entries or int(os.environ.get("VERIF_CACHE_MAX", "24"))
     root = os.path.join(CACHE, "facts")
     ents = [os.path.join(root, d) for d in os.listdir(root)]
     ents = [e for e in ents if os.path.isdir(e)]
